@@ -21,3 +21,7 @@ namespace wit { inline auto use_concat() {
 	frg::array<int, 3> a{}; frg::array<int, 2> b{}; frg::array<int, 4> c{};
 	return frg::array_concat<int>(a, b, c);
 } }
+template const int &frg::min<int>(const int &, const int &);
+template const int &frg::max<int>(const int &, const int &);
+template const wit::Elem &frg::min<wit::Elem>(const wit::Elem &, const wit::Elem &);
+template const wit::Elem &frg::max<wit::Elem>(const wit::Elem &, const wit::Elem &);
